@@ -150,4 +150,11 @@ Definition run (op : bytes) (args : list val) : val :=
         | Some d1, Some w1, Some d2, Some w2 => val_of_R (fun v => v) (week_eq_obs (d_week d1 w1) (d_week d2 w2))
         | _, _, _, _ => VBad end
     | _ => VBad end
+  (* NaiveDate::from_weekday_of_month (deprecated): expect(..) of the _opt form *)
+  else if op_is op "d8.pnthwd" then
+    match args with
+    | [a; b; c; e] => match arg_i32 a, arg_u32 b, arg_wd c, arg_u8 e with
+        | Some y, Some m, Some w, Some n => val_of_R DateTime.enc_date (unwrap_r (from_weekday_of_month_opt y m w n))
+        | _, _, _, _ => VBad end
+    | _ => VBad end
   else VErr B"NOOP".
